@@ -80,6 +80,7 @@ def check(ctx: Ctx) -> None:
     from .c09 import r1_fresh_names
     r1_fresh_names(ctx, "C10.R19")
     mtime_is_untruncated(ctx)
+    writer_names_in_reader_language(ctx)
 
 
 def _fold_digits(ctx: Ctx, f: FunctionInfo, e: ast.AST, at: int, depth: int = 0) -> Optional[str]:
@@ -97,12 +98,23 @@ def _fold_digits(ctx: Ctx, f: FunctionInfo, e: ast.AST, at: int, depth: int = 0)
                 return _fold_digits(ctx, f, dn.ast.value, d, depth + 1)
         return None
     if isinstance(e, ast.JoinedStr):
-        return "".join(str(x.value) if isinstance(x, ast.Constant) else "0" for x in e.values)
+        out = []
+        for x in e.values:
+            if isinstance(x, ast.Constant):
+                out.append(str(x.value))
+            elif isinstance(x, ast.FormattedValue) and isinstance(x.value, (ast.Name, ast.Attribute)) and x.format_spec is None \
+                    and x.conversion == -1 and ctx.prog.const_str(x.value, f.module, f) is not None:
+                out.append(ctx.prog.const_str(x.value, f.module, f))  # a named constant (suffix / prefix)
+            else:
+                out.append("0")
+        return "".join(out)
     if isinstance(e, ast.BinOp) and isinstance(e.op, ast.Add):
         parts = []
         for side in (e.left, e.right):
             if isinstance(side, ast.Constant) and isinstance(side.value, str):
                 parts.append(side.value)
+            elif isinstance(side, (ast.Name, ast.Attribute)) and ctx.prog.const_str(side, f.module, f) is not None:
+                parts.append(ctx.prog.const_str(side, f.module, f))  # a named constant (suffix / prefix)
             elif isinstance(side, ast.Name):
                 parts.append("0")
             else:
@@ -137,9 +149,9 @@ def int_is_guarded(ctx: Ctx, f: FunctionInfo, n: Node) -> Tuple[bool, str]:
                     from .c03 import metadata_regex
                     pat = metadata_regex(ctx)
                     idx = a.args[0].value if a.args and isinstance(a.args[0], ast.Constant) else 0
-                    groups = re.findall(r"\((?!\?)([^()]*)\)", pat)
-                    if isinstance(idx, int) and 1 <= idx <= len(groups) and re.fullmatch(r"\\d[+]|\\d\{\d+(,\d*)?\}|\[0-9\][+]", groups[idx - 1]):
-                        return True, f"group {idx} of the metadata regex is `{groups[idx - 1]}` (decimal digits only)"
+                    from .common import regex_group_is_digits
+                    if isinstance(idx, (int, str)) and regex_group_is_digits(pat, idx):
+                        return True, f"group {idx!r} of the metadata regex matches decimal digits only"
         return False, "regex group not provably digits-only"
     if isinstance(a, ast.Name):
         v = a.id
@@ -725,3 +737,45 @@ def r7(ctx: Ctx) -> None:
     ctx.ob("C10.R7", mm.methods["refresh"], "resolution reads the store every time", None, not bad,
            "a remembered recovery result ('the file still exists') is not the LATEST version once another handle commits: the stale "
            "handle resolves to a superseded version and its next commit overwrites committed data", witness=bad[:6] or None)
+
+
+def writer_names_in_reader_language(ctx: Ctx, rid: str = "C10.R21") -> None:
+    ctx.rule(rid, "writer and reader agree on the metadata-file language: the name _new_metadata_filename builds for version 3 "
+             "(scenario: uuid4().hex = 32 hex digits; nothing is run) matches _METADATA_FILE_RE and the version group reads 3 - "
+             "otherwise every pointer the committer writes is unparseable and recovery cannot see the files it lists", 1)
+    from .common import concrete_eval, explore, UNKNOWN
+    from .c03 import metadata_regex
+    f = ctx.fn("metadata_manager.MetadataManager._new_metadata_filename")
+    g = ctx.cfg(f)
+    pn = next((p.name for p in f.params if p.name not in ("self", "cls")), None)
+    if pn is None:
+        raise AnalysisError("_new_metadata_filename takes no version parameter")
+    rx = metadata_regex(ctx)
+    for ver in (3, 12):
+        env = {pn: ver, "uuid4().hex": "0a1b2c3d4e5f60718293a4b5c6d7e8f9"}
+        names = set()
+        for nid, store, _asm in explore(ctx, f, [g.entry], env, stop=[n.id for n in g.nodes if n.kind == "return"]):
+            n = g.nodes[nid]
+            if n.kind == "return" and n.ast is not None:
+                scen = dict(env)
+                scen.update({k: v for k, v in store.items() if isinstance(k, str)})
+                names.add(concrete_eval(ctx, f, n.ast.value, scen, nid))  # type: ignore[union-attr]
+        undecided = not names or any(v is UNKNOWN or not isinstance(v, str) for v in names)
+        if undecided:
+            ctx.ob(rid, f, f"the name written for version {ver} is in the reader's language", None, True,
+                   "name expression not evaluable by the scenario evaluator (not judged)", nontrivial=False, text=str(ver))
+            continue
+        bad = []
+        for nm in sorted(names):  # type: ignore[type-var]
+            m = re.match(rx, nm)  # type: ignore[arg-type]
+            grp = None
+            if m is not None:
+                try:
+                    grp = m.group(1)
+                except Exception:
+                    grp = None
+            if m is None or grp != str(ver):
+                bad.append(nm)
+        ctx.ob(rid, f, f"the name written for version {ver} is in the reader's language", None, not bad,
+               f"{sorted(names)} vs {getattr(rx, 'pattern', rx)!r}" + (f": {bad} is not matched (or its version group is not {ver})" if bad else ""),
+               text=str(ver))
